@@ -67,6 +67,32 @@ def run (q : Q) : List Op → Q × List Out
     let (q'', os) := run q' ops
     (q'', o :: os)
 
+/-- The queue object: the slice plus the persistent sequence counter `lastId` (the id given by the last Push),
+so that numbering continues after the queue was drained. -/
+structure QS where
+  q      : Q
+  lastId : Nat
+  deriving DecidableEq, Repr
+
+/-- `Push` on the object: id = last queued id + 1, or lastId + 1 when the queue is empty. -/
+def nextIdS (s : QS) : Nat :=
+  match s.q.getLast? with
+  | some e => e.id + 1
+  | none   => s.lastId + 1
+
+def pushS (s : QS) (x : String) : QS := ⟨s.q ++ [⟨nextIdS s, x⟩], nextIdS s⟩
+
+def stepS (s : QS) : Op → QS × Out
+  | .push x => (pushS s x, .ents [])
+  | op => let r := step s.q op; (⟨r.1, s.lastId⟩, r.2)
+
+def runS (s : QS) : List Op → QS × List Out
+  | []        => (s, [])
+  | op :: ops =>
+    let (s', o) := stepS s op
+    let (s'', os) := runS s' ops
+    (s'', o :: os)
+
 /-- nil receiver: every method returns nil / true and leaves nil. -/
 def stepNil : Op → Out
   | .empty => .flag true
